@@ -1036,12 +1036,64 @@ let pred_c12 steps impl =
 
 (* C04: the extracted ideal ordered-set replay c04_check on the implementation's
    results and store dumps after every management call *)
+(* "every read API is a view of that same set": each view query is recomputed from the implementation's OWN
+   store dumps (?ga:p / ?ga:g) taken since the last call; rules in the dumps are sec :: ptype :: fields *)
+let c04_views_ok (sts : string array) (os : string array) : bool =
+  let n = Array.length sts in
+  let dump_p = ref None and dump_g = ref None in
+  let ok = ref true in
+  let rec dedup seen = function [] -> [] | x :: r -> if List.mem x seen then dedup seen r else x :: dedup (x :: seen) r in
+  for i = 0 to n - 1 do
+    let st = sts.(i) in
+    if not (is_query st) then (dump_p := None; dump_g := None)
+    else if st = "?ga:p" then dump_p := Some (parse_rules_out os.(i))
+    else if st = "?ga:g" then dump_g := Some (parse_rules_out os.(i))
+    else begin
+      let f = String.split_on_char ':' st in
+      let store sec = if sec = "g" then !dump_g else !dump_p in
+      let of_type sec pt = match store sec with
+        | Some rs -> Some (List.filter_map (fun r -> match r with s :: t :: fl when s = sec && t = pt -> Some fl | _ -> None) rs)
+        | None -> None in
+      let o = os.(i) in
+      if o <> "P" && o <> "PANIC" then
+        match f with
+        | ["?gp"; sec; pt] ->
+          (match of_type sec pt with Some rs -> if parse_rules_out o <> rs then ok := false | None -> ())
+        | ["?hp"; sec; pt; r] ->
+          (match of_type sec pt with
+           | Some rs -> let r = if r = "!" then [] else String.split_on_char ',' r in
+             if o <> b01 (List.mem r rs) then ok := false
+           | None -> ())
+        | ["?gf"; sec; pt; idx; vals] ->
+          (match of_type sec pt with
+           | Some rs ->
+             let idx = int_of_string idx in
+             let vals = if vals = "!" then [] else String.split_on_char ',' vals in
+             let in_range = List.for_all (fun r -> List.length r >= idx + List.length vals) rs in
+             if in_range then begin
+               let keep r = List.for_all (fun x -> x) (List.mapi (fun j v -> v = "~" || List.nth r (idx + j) = v) vals) in
+               if parse_rules_out o <> List.filter keep rs then ok := false
+             end
+           | None -> ())
+        | ["?vl"; sec; pt; idx] ->
+          (match of_type sec pt with
+           | Some rs ->
+             let idx = int_of_string idx in
+             if List.for_all (fun r -> List.length r > idx) rs then
+               (* distinct values; their order is not part of the property (the code keeps last occurrences) *)
+               (if List.sort compare (parse_names_out o) <> uniq (List.map (fun r -> List.nth r idx) rs) then ok := false)
+           | None -> ())
+        | _ -> ()
+    end
+  done;
+  !ok
+
 let pred_c04 line spec ad flags steps impl =
   match impl_results impl with
   | Some outs ->
     let sts = Array.of_list (steps_list steps) and os = Array.of_list outs in
     let n = Array.length sts in
-    if n <> Array.length os then false else begin
+    if n <> Array.length os then false else if not (c04_views_ok sts os) then false else begin
       let d = modeldef_of_spec spec in
       match new_enforcer d (adapter_of_spec ad) false with
       | (s0, Ok _) ->
